@@ -549,9 +549,11 @@ func (d *cdriver) stackCase(idx int) {
 	}
 	m := st.Merged()
 	okc := d.compareQueries("go-stack-c-reads", "query-stack", dir, cOpts(gcfg), m, qs, info, idh)
+	nextUI := st.NextUpdateIndex()
 	stx.SafeClose(st)
 	if okc {
 		r.Count("stacks_go_to_c", 1)
+		d.cExtends(rng, dir, gcfg, cfg, model, nextUI, opts, qs, info, idh)
 	}
 
 	// (d) C writes a stack (stack_add + its auto-compaction), Go reads and extends it
@@ -617,6 +619,111 @@ func (d *cdriver) stackCase(idx int) {
 		r.Count("stacks_c_to_go_to_c", 1)
 	}
 	stx.SafeClose(st2)
+}
+
+// cExtends: (e) the C stack extends a stack written by Go - single transactions and
+// multi-table additions (C's auto-compaction then merges tables Go wrote), optionally a full
+// compaction, a full compaction with reflog expiry (time / minimum update index, the two
+// limits both implementations have), and Clean - and Go reads the result: fresh view ==
+// reference model (expiry applied by the reference filter), and C's answers on the result
+// == Go's.
+func (d *cdriver) cExtends(rng *gen.Rng, dir string, gcfg gen.Cfg, cfg reftable.Config, model *gen.Model, ui uint64, opts gen.TxnOpts, qs []*c15query, info map[string]interface{}, idh string) {
+	c := d.c
+	r := c.Rep
+	var sb strings.Builder
+	n := 2 + rng.Intn(5)
+	multi := 0
+	for i := 0; i < n; {
+		k := 1
+		if rng.Chance(0.35) {
+			k = 2 + rng.Intn(2)
+			fmt.Fprintf(&sb, "M %d\n", k)
+			multi++
+		}
+		for j := 0; j < k; j++ {
+			t := gen.GenTxn(rng, 300+i, model, opts)
+			refs, logs := t.Materialize(ui)
+			fmt.Fprintf(&sb, "T %d\n%s---\n", ui, xDump(refs, logs))
+			model.Apply(t, ui)
+			ui++
+			i++
+		}
+	}
+	tf := filepath.Join(c.Work, fmt.Sprintf("c15-ext-%d.txt", c.Shard))
+	os.WriteFile(tf, []byte(sb.String()), 0644)
+	defer os.Remove(tf)
+	args := append([]string{"stack-apply", dir, tf}, cOpts(gcfg)...)
+	what := "extend"
+	switch rng.Intn(5) {
+	case 0:
+		args = append(args, "compactall")
+		what += "+compactall"
+	case 1, 2:
+		// expiry limits around the data: times are 1000+txn id, update indices 1..ui
+		var et, emin uint64
+		_, logs := model.View()
+		if len(logs) > 0 {
+			l := logs[rng.Intn(len(logs))]
+			switch rng.Intn(3) {
+			case 0:
+				et = l.Time + uint64(rng.Intn(2))
+			case 1:
+				emin = l.UI + uint64(rng.Intn(2))
+			default:
+				et = l.Time
+				emin = logs[rng.Intn(len(logs))].UI
+			}
+		}
+		args = append(args, fmt.Sprintf("expire=%d,%d", et, emin))
+		what += "+expiry"
+		e := &reftable.LogExpirationConfig{Time: et, MinUpdateIndex: emin}
+		expired := 0
+		for k, l := range model.Logs {
+			if !l.Del && !keepLog(&l, e) {
+				delete(model.Logs, k)
+				expired++
+			}
+		}
+		r.Count("c_expiry_entries_expired", expired)
+	}
+	if rng.Chance(0.3) {
+		args = append(args, "clean")
+		what += "+clean"
+	}
+	info2 := map[string]interface{}{}
+	for k, v := range info {
+		info2[k] = v
+	}
+	info2["c_extension"] = strings.Join(args[3:], " ")
+	out, san, _ := d.run(args...)
+	if san != "" {
+		r.Violate([]string{"C15"}, "c-extends-go-stack|c-sanitizer|"+sanSig(san), "the C stack has a sanitizer report while extending a stack written by Go:\n"+san, info2)
+		return
+	}
+	if !strings.Contains(out, "\nOK") && !strings.HasPrefix(out, "OK") {
+		r.Violate([]string{"C15"}, "c-extends-go-stack|apply-failed", "C "+what+" on a stack written by Go failed on legal transactions: "+trimTo(out, 500), info2)
+		return
+	}
+	r.Evaluations++
+	fd, _, err := stx.FreshView(dir, cfg)
+	if err != nil {
+		r.Violate([]string{"C15"}, "c-extends-go-stack|go-cannot-open|"+errClass(err), "Go cannot open a Go-written stack after C extended it ("+what+"): "+err.Error(), info2)
+		return
+	}
+	if want := model.Dump(); fd != want {
+		r.Violate([]string{"C15"}, "c-extends-go-stack|view-differs", "a Go-written stack extended by C ("+what+") reads differently in Go: "+gen.DiffLines(want, fd), info2)
+		return
+	}
+	st, err := stx.Open(dir, cfg)
+	if err != nil {
+		return
+	}
+	if d.compareQueries("go-stack-c-extended-c-reads", "query-stack", dir, cOpts(gcfg), st.Merged(), qs, info2, idh+"/cext") {
+		r.Count("stacks_go_to_c_extended", 1)
+		r.Count("c_multi_table_additions", multi)
+		r.Nontrivial(rep.Hash("c15", "cext", idh, what))
+	}
+	stx.SafeClose(st)
 }
 
 var _ = strconv.Itoa
